@@ -32,6 +32,7 @@ type c11Case struct {
 // expected namespace (from the AST)
 
 type c11Expect struct {
+	table int // index of the table that declares the object
 	obj  *amlObj
 	kind string // device thermal processor power method name opregion mutex event fieldunit
 	fld  *c11FieldExpect
@@ -52,6 +53,9 @@ func c11JoinPath(scope, name string) string {
 
 // c11Collect walks the AST and records every named object under its absolute
 // path. Field units land in the scope of their Field/IndexField.
+// c11CollectTable is the index of the table c11Collect is walking.
+var c11CollectTable int
+
 func c11Collect(objs []amlObj, lexScope string, out map[string]c11Expect) error {
 	for i := range objs {
 		o := &objs[i]
@@ -80,7 +84,7 @@ func c11Collect(objs []amlObj, lexScope string, out map[string]c11Expect) error 
 					if _, dup := out[p]; dup {
 						return fmt.Errorf("duplicate %s", p)
 					}
-					out[p] = c11Expect{obj: o, kind: "fieldunit", fld: &c11FieldExpect{off, e.Bits, acc, attrib, lock, upd, conn}}
+					out[p] = c11Expect{table: c11CollectTable, obj: o, kind: "fieldunit", fld: &c11FieldExpect{off, e.Bits, acc, attrib, lock, upd, conn}}
 					off += e.Bits
 				}
 			}
@@ -88,7 +92,7 @@ func c11Collect(objs []amlObj, lexScope string, out map[string]c11Expect) error 
 			if _, dup := out[o.Abs]; dup {
 				return fmt.Errorf("duplicate %s", o.Abs)
 			}
-			out[o.Abs] = c11Expect{obj: o, kind: o.K}
+			out[o.Abs] = c11Expect{table: c11CollectTable, obj: o, kind: o.K}
 			if len(o.Body) > 0 {
 				if err := c11Collect(o.Body, o.Abs, out); err != nil {
 					return err
@@ -564,7 +568,7 @@ func c11CheckExpr(tree *ObjectTree, o *Object, e *amlExpr, paths map[uint32]stri
 
 type c11Stats struct {
 	scopeDirectives, relocated, callsWithArgs, forwardCalls, nestedCalls, nonMinimalPkg, deferred int
-	tables, hugePkg, miscStmts, miscExprs, methodDecls, rootScopes, pkgRefs                    int
+	tables, hugePkg, miscStmts, miscExprs, methodDecls, rootScopes, pkgRefs, shadowed          int
 }
 
 func c11Run(c c11Case) (fail *vlib.Failure, errLog string) {
@@ -611,7 +615,8 @@ func c11Run(c c11Case) (fail *vlib.Failure, errLog string) {
 		tree.PrettyPrint(os.Stdout)
 	}
 	expect := map[string]c11Expect{}
-	for _, objs := range c.Tables {
+	for ti, objs := range c.Tables {
+		c11CollectTable = ti
 		if err := c11Collect(objs, "\\", expect); err != nil {
 			return vlib.Failf("VERIF-HARNESS generator produced an ill-formed program: %v", err), ""
 		}
@@ -668,8 +673,25 @@ func c11Run(c c11Case) (fail *vlib.Failure, errLog string) {
 		if e.kind != "method" {
 			continue
 		}
+		// simple names used by this method: the innermost enclosing scope that declares the
+		// name wins (names other than shadowed method names are unique)
+		names := map[string]string{}
+		for q := range expect {
+			sc, nm := c11ScopeOfAbs(q), q[strings.LastIndexAny(q, ".\\")+1:]
+			if !(sc == p || c11Visible(sc, p)) || expect[q].table > e.table {
+				continue // not in an enclosing scope, or declared by a table loaded later
+			}
+			if old, ok := names[nm]; !ok || len(c11ScopeOfAbs(old)) < len(sc) {
+				names[nm] = q
+			}
+		}
+		for nm, q := range nameToPath {
+			if _, ok := names[nm]; !ok {
+				names[nm] = q
+			}
+		}
 		var want []c11Call
-		c11CallsInStmts(e.obj.Stmts, p, nameToPath, &want)
+		c11CallsInStmts(e.obj.Stmts, p, names, &want)
 		// top-level invocations only (nested ones are compared through their parent)
 		top := map[*amlExpr]bool{}
 		for _, w := range want {
@@ -700,7 +722,7 @@ func c11Run(c c11Case) (fail *vlib.Failure, errLog string) {
 			return vlib.Failf("method %s: the program makes %d (outermost) method invocations, the parsed tree has %d", p, len(wantTop), len(got)), ""
 		}
 		for i := range got {
-			if err := c11CheckExpr(tree, got[i], wantTop[i].expr, pathOf, nameToPath, fmt.Sprintf("method %s invocation #%d", p, i)); err != nil {
+			if err := c11CheckExpr(tree, got[i], wantTop[i].expr, pathOf, names, fmt.Sprintf("method %s invocation #%d", p, i)); err != nil {
 				return vlib.Failf("%v", err), ""
 			}
 		}
